@@ -9,7 +9,7 @@
 The two comprehensions are loops, i.e. outside the statement grammar of py2v.  What is translated HERE is
 the control skeleton of the function (which test raises, which exception, what is returned).  The two
 comprehension expressions are located structurally in the current source (an `all(<generator>)` call
-under the `not` of the first `if`, and `tuple(<generator>)[::-1]` as the returned value) and their source
+under a `not` in the test of the first `if`, and `tuple(<generator>)[::-1]` as the returned value) and their source
 text becomes the `extern` keys; they stand for the two extra parameters `all_ok` / `zipped`, which the
 hand-written model (Model/Elemwise.v: broadcast_shape2) computes by folding the *generated per-axis
 definitions* over the reversed shapes.  If the function no longer has that structure the keys are
@@ -36,11 +36,14 @@ def _skeleton_keys():
                 if not (isinstance(s, ast.Expr) and isinstance(s.value, ast.Constant) and isinstance(s.value.value, str))]
         test, ret = body[0], body[1]
         assert len(body) == 2 and isinstance(test, ast.If) and isinstance(ret, ast.Return) and not test.orelse
-        t = test.test
-        assert isinstance(t, ast.UnaryOp) and isinstance(t.op, ast.Not)
-        call = t.operand
-        assert isinstance(call, ast.Call) and ast.unparse(call.func) == "all" and len(call.args) == 1 \
-            and isinstance(call.args[0], ast.GeneratorExp) and not call.keywords
+        # the test is a boolean expression in which `not all(<generator>)` occurs (round 7: it is or-ed with the
+        # is_result length guard); the all(...) call is the only part outside the statement grammar
+        calls = [n for n in ast.walk(test.test) if isinstance(n, ast.Call) and ast.unparse(n.func) == "all"]
+        assert len(calls) == 1
+        call = calls[0]
+        nots = [n for n in ast.walk(test.test) if isinstance(n, ast.UnaryOp) and isinstance(n.op, ast.Not) and n.operand is call]
+        assert len(nots) == 1
+        assert len(call.args) == 1 and isinstance(call.args[0], ast.GeneratorExp) and not call.keywords
         v = ret.value
         assert isinstance(v, ast.Subscript) and ast.unparse(v.slice) == "::-1"
         inner = v.value
